@@ -355,7 +355,7 @@ def check_C13(res, scratch, tier, seed):
     for tag, cfg in fams:
         run_family(res, scratch, tag, cfg, mk, builds=builds, mine=mine, timeout=3000)
     # the corpus: rules with three and more translated children, nil and terminal nodes shared between abstract nodes, longer inputs
-    corpus_part(res, scratch, tier, seed, "C13", matrix, ("curated", "random_trans", "random_amb"), trees=False, builds=builds, mems=(0, 0, 1, 0, 2), mine=mine,
+    corpus_part(res, scratch, tier, seed, "C13", matrix, ("curated", "random_trans", "random_amb", "emptyname"), trees=False, builds=builds, mems=(0, 0, 1, 0, 2), mine=mine,
                 want_trees=False)
     # call histories: two objects parsed alternately, one object redefined between parses (scripted behaviours of Api.tla, all choices)
     abuilds = [build(scratch, "plain", ("yv_replay", "yv_api"))]
@@ -554,6 +554,8 @@ def corpus_entries(tier, seed, kinds):
         ents += _corpus.random_grammars(seed + 1000, n, nnts=3, nterms=2, maxrules=5, trans=True, maxlen=4)
     if "random_amb" in kinds:     # one terminal: heavily ambiguous, nullable symbols frequent
         ents += _corpus.random_grammars(seed + 3000, n, nnts=3, nterms=1, maxrules=6, maxrhs=3, trans=True, maxlen=5, empty_bias=0.15)
+    if "emptyname" in kinds:
+        ents += _corpus.empty_anode_names()
     if "wide" in kinds:
         ents += _corpus.wide_terminal_sets()
     if "random_err" in kinds:
